@@ -40,7 +40,7 @@ static Built build(Rng& r, const GenCfg& cfg, int rows, int cols) {
     const ExprNode& leaf = g.leaf(1, 1);
     Array<const ExprNode> a(n - k + 1); int pos = 0; bool first = r.coin(70);
     if (first) a.set_ref(pos++, blk);
-    for (int i = 0; i < n - k; i++) a.set_ref(pos++, i == 0 ? (const ExprNode&)sqrt(leaf + (double)r.range(-2, 2)) : g.gen(1, 1, 2));
+    for (int i = 0; i < n - k; i++) a.set_ref(pos++, i == 0 ? (const ExprNode&)sqrt(leaf) : g.gen(1, 1, 2));
     if (!first) a.set_ref(pos++, blk);
     ep = &ExprVector::new_(a, row ? ExprVector::ROW : ExprVector::COL);
   } else ep = &g.gen(rows, cols, cfg.max_depth);
@@ -66,7 +66,7 @@ static Vector pick_point(Rng& r, const IntervalVector& box) {
     double a = box[i].lb(), b = box[i].ub(); if (a == NEG_INFINITY) a = b - 8; if (b == POS_INFINITY) b = a + 8;
     switch (r.below(5)) { case 0: p[i] = a; break; case 1: p[i] = b; break; case 2: p[i] = box[i].is_unbounded() ? a : box[i].mid(); break;
       default: { double t = r.range(0, 16) / 16.0; double v = a + t * (b - a); if (v < a) v = a; if (v > b) v = b; p[i] = v; } }
-    if (r.coin(25)) { static const double sq[] = {0, 0.25, 1, 2.25, 4, 6.25, 0.0625, 0.5625}; double v = sq[r.below(8)]; if (box[i].contains(v)) p[i] = v; }
+    if (r.coin(45)) { static const double sq[] = {0, 0.25, 1, 2.25, 4, 6.25, 0.0625, 0.5625}; double v = sq[r.below(8)]; if (box[i].contains(v)) p[i] = v; }
     if (!box[i].contains(p[i])) p[i] = a;
   }
   return p;
